@@ -8,6 +8,7 @@ package textsim
 import (
 	"bytes"
 	"fmt"
+	"io"
 	"math"
 	"strconv"
 	"testing"
@@ -578,6 +579,15 @@ func (g *gen) value() sample {
 
 // ---- the run
 
+// byteSink adds io.ByteWriter to the simulated writer (single bytes go through the same fault plan).
+type byteSink struct{ w *simio.Writer }
+
+func (b byteSink) Write(p []byte) (int, error) { return b.w.Write(p) }
+func (b byteSink) WriteByte(c byte) error {
+	_, err := b.w.Write([]byte{c})
+	return err
+}
+
 func short(b []byte) string {
 	if len(b) > 300 {
 		return fmt.Sprintf("%q...(%d bytes)", b[:300], len(b))
@@ -641,7 +651,11 @@ func (Engine) Run(t *testing.T, tape *simrt.Tape, opt worker.Options) *worker.Ou
 			if s.Chance("writer-fault", 1, 4) && len(gotNew) > 0 {
 				w := &simio.Writer{}
 				failAt := 1 + s.Choice("write-fail-at", 12)
-				accept := s.Choice("write-accept", 3)
+				// write-accept 0..2: bytes accepted by the failing write; 3..8: the same, with a writer that
+				// also implements io.ByteWriter (3..5) and/or fails only momentarily (6..8: both)
+				accept := s.Choice("write-accept", 9)
+				asByteWriter, transient := accept >= 3, accept >= 6
+				accept %= 3
 				w.Plan = func(w *simio.Writer, p []byte) (int, error) {
 					if w.Writes == failAt {
 						s.Fault("write_err")
@@ -653,11 +667,20 @@ func (Engine) Run(t *testing.T, tape *simrt.Tape, opt worker.Options) *worker.Ou
 					}
 					if w.Writes > failAt {
 						s.Probe("write_after_error")
+						if transient {
+							// the fault was momentary: later writes would be accepted, but an encoder
+							// that has seen a write fail must not go on writing behind the hole
+							return len(p), nil
+						}
 						return 0, simio.ErrInjected
 					}
 					return len(p), nil
 				}
-				enc := text.NewEncoder(w)
+				var sink io.Writer = w
+				if asByteWriter {
+					sink = byteSink{w}
+				}
+				enc := text.NewEncoder(sink)
 				err := enc.Encode(v.typeID, v.st)
 				fired := w.Writes >= failAt
 				if fired && err == nil {
